@@ -16,6 +16,7 @@ Act(e) == CASE e.a = "setpred" -> SetPred(e.l, ToSet(e.P))
             [] e.a = "exclude" -> Exclude(e.l, e.i)
             [] e.a = "include" -> Include(e.l, e.i)
             [] e.a = "rootver" -> SetRootVer(e.v)
+            [] e.a = "settemp" -> SetTemp(e.l, e.v)
             [] e.a = "rejuvenate" -> Rejuvenate
 
 Mismatch(e) ==
@@ -24,6 +25,7 @@ Mismatch(e) ==
     ELSE IF \E l \in Levels : ToSet(e.manvis[l + 1]) # last'.manvis[l] THEN "manvis"
     ELSE IF ToSet(e.sel) # last'.sel THEN "selection"
     ELSE IF e.featbad THEN "features"
+    ELSE IF \E i \in All : e.temp[i] # tempRoot'[i] THEN "temporary-feature"
     ELSE "ok"
 
 TStep == /\ why = "ok" /\ pos <= Len(Traces[tid].ev)
